@@ -9,9 +9,13 @@
      ` STDOUT+<n>`  the call wrote n bytes to standard output
      ` LOCALE><s>`  setlocale(LC_ALL, NULL) is <s> after the call and was something else before it (every category, per call)
      ` ARR!`        the CONTENTS of the built-in crystal array (entries, names, atoms, counts) differ from before the call
+     ` FDS:<a>><b>` the number of open file descriptors (0..63) was a before the call and is b after it (every call, not only the file ops)
+   errno is carried from the end of one op to the start of the next (what the harness itself does in between — observers, protocol output —
+   is invisible to the library, as in an application that makes the calls back to back); a process without history starts with errno = 0.
    Directives in <ops>:
      !state     S <LC_ALL locale string> | <LC_NUMERIC> | <cwd> | <FNV-1a of every data region> | <every locale category> |
-                  <process state: hash of environ, sigaction of eight signals, rounding mode, open descriptors, next rand()/random()>
+                  <process state: hash of environ, sigaction of eight signals, rounding mode, open descriptors, next rand()/random()> |
+                  <observations, NOT compared: errno as the last op left it, floating-point exception flags>
      !snapshot  keep a copy of every data region
      !diff      D <address> <old byte> <new byte>  for the first bytes that differ from the snapshot
      !end       verify every retained object (error objects, crystal copies, compound data) against the
@@ -82,6 +86,8 @@ static void process_state(char *out, size_t cap) {
     if (k > 0 && n < cap) { b[k] = 0; snprintf(out + n, cap - n, "%s", b); }
   }
 }
+static int errno_carry = 0;          /* errno as the last op left it */
+static int count_fds(int upto) { int n = 0; for (int fd = 0; fd < upto; fd++) if (fcntl(fd, F_GETFD) != -1) n++; return n; }
 static void do_state(void) {
   char cwd[4096]; const char *la = setlocale(LC_ALL, NULL); 
   char lall[1024]; snprintf(lall, sizeof lall, "%s", la ? la : "(null)");
@@ -92,16 +98,19 @@ static void do_state(void) {
   char lc[2048]; size_t n = 0; lc[0] = 0;
   for (size_t i = 0; i < sizeof cats / sizeof *cats && n < sizeof lc; i++) { const char *v = setlocale(cats[i], NULL); n += (size_t)snprintf(lc + n, sizeof lc - n, "%s%s=%s", i ? "," : "", catn[i], v ? v : "(null)"); }
   char ps[1024]; process_state(ps, sizeof ps);
-  printf("S %s | %s | %s | %016llx | %s | %s\n", lall, lnum, getcwd(cwd, sizeof cwd) ? cwd : "?", (unsigned long long)hash_regions(), lc, ps);
+  int fe = fetestexcept(FE_ALL_EXCEPT);
+  printf("S %s | %s | %s | %016llx | %s | %s | obs errno=%d fe=%x\n", lall, lnum, getcwd(cwd, sizeof cwd) ? cwd : "?", (unsigned long long)hash_regions(), lc, ps, errno_carry, (unsigned)fe);
 }
 /* per-call observers: the locale (all categories) and the contents of the built-in crystal array */
-static char loc_seen[1024]; static uint64_t arr_seen;
-static void observers_reset(void) { const char *l = setlocale(LC_ALL, NULL); snprintf(loc_seen, sizeof loc_seen, "%s", l ? l : "(null)"); arr_seen = xrl_array_hash(&Crystal_arr); }
+static char loc_seen[1024]; static uint64_t arr_seen; static int fds_seen;
+static void observers_reset(void) { const char *l = setlocale(LC_ALL, NULL); snprintf(loc_seen, sizeof loc_seen, "%s", l ? l : "(null)"); arr_seen = xrl_array_hash(&Crystal_arr); fds_seen = count_fds(64); }
 static void observers_after(char *out, size_t cap) {
   const char *l = setlocale(LC_ALL, NULL); if (!l) l = "(null)";
   if (strcmp(l, loc_seen)) { size_t n = strlen(out); snprintf(out + n, cap - n, " LOCALE>%s", l); snprintf(loc_seen, sizeof loc_seen, "%s", l); for (char *q = out + n + 8; *q; q++) if (*q == ' ') *q = '_'; }
   uint64_t a = xrl_array_hash(&Crystal_arr);
   if (a != arr_seen) { strncat(out, " ARR!", cap - strlen(out) - 1); arr_seen = a; }
+  int nf = count_fds(64);
+  if (nf != fds_seen) { size_t n = strlen(out); snprintf(out + n, cap - n, " FDS:%d>%d", fds_seen, nf); fds_seen = nf; }
 }
 static void directive(const char *d, retained **keep) {
   if (!strcmp(d, "!state")) do_state();
@@ -139,14 +148,16 @@ int main(int argc, char **argv) {
       fflush(proto);
       pid_t p = fork();
       if (p == 0) { stdout_seen = lseek(1, 0, SEEK_CUR);      /* fd 1 shares its offset with the siblings: count from where THIS child starts */
-                    int ok = xrl_op(&o, tok, nt, NULL); long sd = stray_stdout(); if (sd) { char x[48]; snprintf(x, sizeof x, " STDOUT+%ld", sd); strncat(out, x, sizeof out - strlen(out) - 1); }
+                    errno = 0;                                /* a process without history */
+                    int ok = xrl_op(&o, tok, nt, NULL); errno_carry = errno; long sd = stray_stdout(); if (sd) { char x[48]; snprintf(x, sizeof x, " STDOUT+%ld", sd); strncat(out, x, sizeof out - strlen(out) - 1); }
                     observers_after(out, sizeof out);
                     printf("R %d %s\n", idx, ok ? out : "bad-op"); fflush(proto); _exit(0); }
       int st; waitpid(p, &st, 0);
       if (!WIFEXITED(st) || WEXITSTATUS(st) != 0) printf("R %d died %d\n", idx, st);
     } else {
       printf("B %d\n", idx);               /* begin marker: a crash is attributed to this op */
-      int ok = xrl_op(&o, tok, nt, &keep); long sd = stray_stdout(); if (sd) { char x[48]; snprintf(x, sizeof x, " STDOUT+%ld", sd); strncat(out, x, sizeof out - strlen(out) - 1); }
+      errno = errno_carry;
+      int ok = xrl_op(&o, tok, nt, &keep); errno_carry = errno; long sd = stray_stdout(); if (sd) { char x[48]; snprintf(x, sizeof x, " STDOUT+%ld", sd); strncat(out, x, sizeof out - strlen(out) - 1); }
       observers_after(out, sizeof out);
       printf("R %d %s\n", idx, ok ? out : "bad-op");
     }
